@@ -42,4 +42,7 @@ EXTRAS = [
     lambda rep, fb, tier: __import__("vf.rules.lints", fromlist=["x"]).rule_ctor_roles(rep, fb),
     lambda rep, fb, tier: __import__("vf.rules.lints", fromlist=["x"]).rule_call_roles(rep, fb),
     lambda rep, fb, tier: __import__("vf.rules.lints2", fromlist=["x"]).rule_dtype_case_methods(rep, fb),
+    lambda rep, fb, tier: __import__("vf.rules.lints3", fromlist=["x"]).rule_union_tag_count(rep, fb),
+    lambda rep, fb, tier: __import__("vf.rules.lints3", fromlist=["x"]).rule_merge_parameters(rep, fb),
+    lambda rep, fb, tier: __import__("vf.rules.pyrules", fromlist=["x"]).rule_py_merge_batch(rep),
 ]
